@@ -61,6 +61,12 @@ def st_c19(tier, sd):
         out.append(c)
     return out
 
+def mixed_c04(tier):
+    out = mixed_c01(tier)[:3]
+    for net, extra in (('unix', {}), ('unix', {'srvpipe': True}), ('frag', {'frag': 200}), ('frag', {'poll': True, 'readers': 2, 'frag': 200})):
+        out.append(dict({'network': net, 'streams': 1, 'msgs': 2, 'end': 'close', 'burstclose': 10, 'after': 6}, **extra))
+    return out
+
 def st_c04(tier, sd):
     cfgs = st_c01(tier, sd)
     return cfgs[:8] if tier == 'quick' else cfgs
@@ -131,6 +137,7 @@ CONN_PLANS = {
                  ('sweepskip', ['SweepSkips'], C({1, 2, 3}, M(), cut=1))],
         'sims': FAULT_SIMS,
         'also_transport': 'C14',
+        'also_client': True,
     },
     'C03': {
         'own': 'C03',
@@ -160,6 +167,7 @@ CONN_PLANS = {
                  ('dupexecP', ['DupExec'], C({1, 2, 3}, M(sp=True)))],
         'sims': HAPPY_SIMS + FAULT_SIMS[:2],
         'stress': st_c04,
+        'mixed': mixed_c04,
         'also_transport': 'C14',
     },
     'C05': {
@@ -354,6 +362,17 @@ def conn_check(pid, tier, replay_file=None):
         cov['stream_layer'] = {k: scov[k] for k in ('schedules_replayed', 'traces_validated_against_impl', 'trace_events')}
         cov['traces_validated_against_impl'] += scov['traces_validated_against_impl']
         lap('stream_layer')
+    if plan.get('also_client') and not replay_file:
+        # the same property at the Client layer: every call form (Go with a nil done channel included) over every routing outcome
+        # (routed, parked and woken, timed out, failed over, closed); a caller still blocked at the end of a run is reported
+        light = {'models': {}, 'devs': [], 'forms': ('go', 'gonil', 'rt', 'call', 'ctx', 'ping', 'stream'),
+                 'sims': [('w', KC(upd=(('a', 'b'), ('b',)), maxupd=1, flips=3, calls=8, fb=2, callers=(1, 2, 3))),
+                          ('w3', KC(addrs=ABC, upd=(('a', 'b', 'c'),), init=('a', 'b', 'c'), maxupd=0, flips=4, calls=8, fb=1, callers=(1, 2)))]}
+        kv, kcov, kass = cli_core(pid, light, tier, None, models=False, nsim_quick=14)
+        violations.extend(kv)
+        cov['client_layer'] = {k: kcov[k] for k in ('schedules_replayed', 'traces_validated_against_impl', 'trace_events')}
+        cov['traces_validated_against_impl'] += kcov['traces_validated_against_impl']
+        lap('client_layer')
     if plan.get('also_transport') and not replay_file:
         # the same property one layer up: schedules of Transport.tla with kills/restarts (no retry, no duplicate execution)
         tv, tcov, tass = trans_core(pid, TRANS_PLANS[plan['also_transport']], tier, None, models=False)
@@ -472,6 +491,8 @@ def trans_core(pid, plan, tier, replay_file=None, models=True):
         icfg = {'Addrs': ['a'], 'MaxConns': 1, 'MaxIdle': 1, 'KeepAlive': 1, 'IdleTO': 2, 'UnitMs': 50, 'IOErr': True, 'Forms': ['call']}
         schedules.append({'name': 'ioerr:idle', 'cfg': icfg, 'steps': G(1) + R(1) + [{'a': 'Drop', 'k': 1}] + G(1) + R(1) + G(1) + R(1) + G(1) + R(1)})
         schedules.append({'name': 'ioerr:inflight', 'cfg': icfg, 'steps': G(1) + [{'a': 'Drop', 'k': 1}] + R(1) + G(1) + R(1) + G(1) + R(1) + G(1) + R(1)})
+        scfg = {'Addrs': ['a'], 'MaxConns': 1, 'MaxIdle': 1, 'KeepAlive': 1, 'IdleTO': 2, 'UnitMs': 50, 'Forms': ['call', 'stream', 'call', 'call']}
+        schedules.append({'name': 'stream:deadconn', 'cfg': scfg, 'steps': G(1) + R(1) + [{'a': 'Kill', 'addr': 'a'}, {'a': 'Restart', 'addr': 'a'}] + G(1) + R(1) + G(1) + R(1) + G(1) + R(1)})
         if plan.get('bursts'):
             # concurrent callers racing for the pool (no gates): limits and their normalisation
             for j, (mc, mi, raw) in enumerate([(2, 1, None), (1, 1, (0, 0)), (1, 1, (-1, 5)), (2, 2, (2, 5)), (3, 2, None), (1, 1, None), (3, 1, (3, -1)), (2, 1, (2, -3))]):
@@ -518,6 +539,18 @@ for _p in TRANS_PLANS:
 import clifam as kf
 KC = kf.consts
 ABC = ('a', 'b', 'c')
+def _cycle(k, n):
+    out = []
+    for _ in range(n):
+        out += [{'a': 'Route', 'k': k}, {'a': 'CallDone', 'k': k}, {'a': 'Again', 'k': k}]
+    return out
+
+def _dead_script(ncalls):
+    # three live targets, b goes away, ncalls calls in rotation (every target is reached whatever the list order; with 3 + p calls the
+    # rotation stands at position p when the list shrinks), a probe finds b still away, two more calls
+    return ([{'a': 'Detect'}] + [{'a': 'ProbeDone', 'addr': x, 'g': 0} for x in 'abc'] + [{'a': 'Flip', 'addr': 'b'}] + _cycle(1, ncalls) +
+            [{'a': 'Detect'}, {'a': 'ProbeDone', 'addr': 'b', 'g': 0}] + _cycle(1, 2))
+
 CLI_PLANS = {
     'C16': {
         'own': 'C16',
@@ -530,7 +563,7 @@ CLI_PLANS = {
         'sims': [('rr', KC(addrs=ABC, upd=(('a', 'b'), ('b', 'c'), ('a', 'b', 'c'), ('c',)), init=('a', 'b'), maxupd=3, flips=2, calls=8, fb=1, director=2)),
                  ('rnd', KC(addrs=ABC, policy='random', upd=(('a', 'b'), ('b', 'c'), ('a', 'b', 'c')), init=('a', 'b', 'c'), maxupd=3, flips=2, calls=8, fb=1, director=1)),
                  ('lt', KC(addrs=ABC, policy='lt', upd=(('a', 'b'), ('b', 'c'), ('a', 'b', 'c')), init=('a', 'b', 'c'), maxupd=3, flips=2, calls=8, fb=0, lats=(10, 30)))],
-        'forms': ('call', 'go', 'rt', 'ctx', 'ping', 'stream'),
+        'forms': ('call', 'go', 'rt', 'ctx', 'ping', 'stream', 'gonil'),
     },
     'C17': {
         'own': 'C17',
@@ -548,7 +581,7 @@ CLI_PLANS = {
                  ('rnd', KC(addrs=ABC, policy='random', upd=(('a', 'b', 'c'),), init=('a', 'b', 'c'), maxupd=0, flips=2, calls=12, fb=0, callers=(1,))),
                  ('lt', KC(addrs=ABC, policy='lt', upd=(('a', 'b', 'c'),), init=('a', 'b', 'c'), maxupd=0, flips=2, calls=14, fb=0, lats=(10, 30), callers=(1,))),
                  ('lt4', KC(addrs=('a', 'b', 'c', 'd'), policy='lt', upd=(('a', 'b', 'c', 'd'),), init=('a', 'b', 'c', 'd'), maxupd=0, flips=1, calls=16, fb=0, lats=(10, 30), callers=(1,)))],
-        'forms': ('call',),
+        'forms': ('call', 'ctx', 'ping', 'call'),
     },
     'C18': {
         'own': 'C18',
@@ -557,7 +590,8 @@ CLI_PLANS = {
                                 ('w2r', KC(policy='random', upd=(('a', 'b'),), maxupd=0, flips=3, calls=4, fb=1))]},
         'live': {'quick': [('lw', KC(upd=(('a', 'b'),), maxupd=0, flips=1, calls=2, fb=1))],
                  'thorough': [('lw3', KC(upd=(('a', 'b'),), maxupd=0, flips=2, calls=3, fb=1, callers=(1, 2, 3)))]},
-        'devs': [('lostwake', ['LostWakeup', 'DetectNoWake'], KC(upd=(('a', 'b'),), maxupd=0, flips=1, calls=2, fb=0), 'live'),
+        'devs': [('rebuildchange', ['RebuildOnlyOnChange'], KC(addrs=ABC, upd=(('a', 'b', 'c'),), init=('a', 'b', 'c'), maxupd=0, flips=1, calls=3, fb=0, callers=(1,))),
+                 ('lostwake', ['LostWakeup', 'DetectNoWake'], KC(upd=(('a', 'b'),), maxupd=0, flips=1, calls=2, fb=0), 'live'),
                  ('detectnowake', ['DetectNoWake'], KC(upd=(('a', 'b'),), maxupd=0, flips=0, calls=2, fb=1)),
                  ('nowakeclose', ['NoWakeOnClose'], KC(upd=(('a', 'b'),), maxupd=0, flips=0, calls=2, fb=0)),
                  ('waitafterclose', ['WaitAfterClose'], KC(upd=(('a', 'b'),), maxupd=0, flips=0, calls=2, fb=0)),
@@ -565,13 +599,19 @@ CLI_PLANS = {
         'sims': [('w', KC(upd=(('a', 'b'), ('b',)), maxupd=1, flips=3, calls=8, fb=2, callers=(1, 2, 3))),
                  ('wr', KC(policy='random', upd=(('a', 'b'),), maxupd=0, flips=3, calls=8, fb=2, callers=(1, 2, 3))),
                  ('w3', KC(addrs=ABC, upd=(('a', 'b', 'c'),), init=('a', 'b', 'c'), maxupd=0, flips=4, calls=8, fb=1, callers=(1, 2)))],
-        'forms': ('call', 'ctx', 'go', 'rt', 'ping', 'stream'),
+        'forms': ('call', 'ctx', 'go', 'rt', 'ping', 'stream', 'gonil'),
+        # behaviours of the intended model written out by hand where the route a counterexample takes depends on the order of the
+        # live list (Go map order): one call per live target, so that the failing one is reached whatever the order
+        'scripts': [('deadstay', KC(addrs=ABC, upd=(('a', 'b', 'c'),), init=('a', 'b', 'c'), maxupd=0, flips=1, calls=3, fb=0, callers=(1,)), _dead_script(3))],
     },
 }
 
 def cli_check(pid, tier, replay_file=None):
     t0 = time.time()
-    plan = CLI_PLANS[pid]
+    violations, cov, assumptions = cli_core(pid, CLI_PLANS[pid], tier, replay_file)
+    return finish(pid, tier, 'model_checking', cov, t0, violations, [], assumptions)
+
+def cli_core(pid, plan, tier, replay_file=None, models=True, nsim_quick=30):
     sd = seed()
     assumptions = ['the Client runs over a scripted RoundTripper (target health, probe completion and call completion are driven by the schedule)',
                    'detector passes are released one by one through the k.detect.gate hook (the real 100 ms ticker still paces them)',
@@ -584,7 +624,7 @@ def cli_check(pid, tier, replay_file=None):
     if replay_file:
         schedules = [json.load(open(replay_file))['schedule']]
     else:
-        if not os.environ.get('VERIF_SKIP_MC'):
+        if not os.environ.get('VERIF_SKIP_MC') and models:
             for tag, c in plan['models'].get(tier, plan['models']['quick']):
                 res = kf.model_check('%s_%s' % (pid, tag), c, timeout=3000 if tier == 'thorough' else 600)
                 cov['model_runs'].append({'instance': tag, 'constants': res['consts'], 'distinct_states': res['distinct'], 'states_generated': res['states'],
@@ -614,7 +654,12 @@ def cli_check(pid, tier, replay_file=None):
             for rep in range(8):
                 s2 = dict(s); s2['name'] = s['name'] if rep == 0 else '%s#%d' % (s['name'], rep)
                 schedules.append(s2)
-        nsim = 30 if tier == 'quick' else 300
+        for tag, c, steps in plan.get('scripts', []):
+            for rep in range(2):
+                s = kf.sched('%s_%s%s' % (pid, tag, '#%d' % rep if rep else ''), c, [])
+                s['steps'] = s['steps'] + steps
+                schedules.append(s)
+        nsim = nsim_quick if tier == 'quick' else 10 * nsim_quick
         for j, (tag, c) in enumerate(plan['sims']):
             ss, res = kf.sim_schedules('%s_%s' % (pid, tag), c, nsim, 50, sd * 1000 + j, forms)
             schedules.extend(ss)
@@ -665,7 +710,7 @@ def cli_check(pid, tier, replay_file=None):
             cov['samples'].append({'schedule': ss[0]['name'], 'steps': ss[0]['steps'][:40], 'trace_excerpt': [json.loads(x) for x in tr[0][:25]] if tr else []})
     cov['rule'] = ('states/transitions: exhaustive TLC runs of Client.tla (Dev={}; liveness under weak fairness of library steps); traces: executions of the real '
                    'rpc.Client over a scripted RoundTripper driven by TLC behaviours, each accepted by ClientTrace with the invariants checked in every state')
-    return finish(pid, tier, 'model_checking', cov, t0, violations, [], assumptions)
+    return violations, cov, assumptions
 
 for _p in CLI_PLANS:
     REGISTRY[_p] = cli_check
@@ -705,6 +750,11 @@ def stream_scenarios(tier):
                 out.append(dict({'network': net, 'poll': poll, 'readers': readers, 'streams': 1, 'msgs': 2, 'end': 'close', 'burstclose': 12 if tier == 'quick' else 60,
                                  'frag': 0}, **mode))
             out.append({'network': net, 'poll': poll, 'readers': readers, 'streams': 2, 'msgs': 2, 'end': 'drop', 'burstclose': 6, 'frag': 0})
+            if net == 'frag':
+                out.append({'network': net, 'poll': poll, 'readers': 3 if poll else 0, 'streams': 2, 'msgs': 90, 'batch': 45, 'end': 'close', 'frag': 0})
+                out.append({'network': net, 'poll': poll, 'readers': 3 if poll else 0, 'streams': 2, 'msgs': 60, 'batch': 30, 'end': 'drop', 'frag': 300, 'srvpipe': True})
+                out.append({'network': net, 'poll': poll, 'readers': readers, 'streams': 2, 'pushfirst': 1, 'msgs': 3, 'end': 'drop', 'srveof': 'unexpected', 'frag': 0})
+                out.append({'network': net, 'poll': poll, 'readers': readers, 'streams': 2, 'msgs': 3, 'end': 'half', 'srveof': 'unexpected', 'frag': 9})
             out.append({'network': net, 'poll': poll, 'readers': readers, 'streams': 3, 'pushfirst': 1, 'msgs': 3, 'end': 'half', 'frag': 0})
     return out
 
@@ -985,6 +1035,17 @@ def c08_check(pid, tier, replay_file=None):
         for fl in (r.get('failures') or [])[:2]:
             violations.append({'property': pid, 'signature': 'c08:burstclose:' + ' '.join(fl.split()[:5]), 'summary': 'C08 (stream burst + close): %s' % fl, 'schedule': None,
                                'finding': {'kind': 'burstclose', 'failure': fl}, 'trace': []})
+    # 4. peers that go away and come back under a load-balancing Client (3 targets, every rotation position, every policy):
+    #    behaviours of Client.tla with health flips; a crash of the process or a caller left blocked is what counts here
+    if not replay_file:
+        k3 = KC(addrs=ABC, upd=(('a', 'b', 'c'),), init=('a', 'b', 'c'), maxupd=0, flips=1, calls=3, fb=0, callers=(1,))
+        cplan = {'models': {}, 'devs': [], 'forms': ('call', 'go', 'ctx', 'ping'),
+                 'scripts': [('shrink%d' % p, k3, _dead_script(3 + p)) for p in (0, 1, 2)],
+                 'sims': [('rr3', KC(addrs=ABC, upd=(('a', 'b', 'c'),), init=('a', 'b', 'c'), maxupd=0, flips=5, calls=14, fb=0, callers=(1,))),
+                          ('lt3', KC(addrs=ABC, policy='lt', upd=(('a', 'b', 'c'),), init=('a', 'b', 'c'), maxupd=0, flips=4, calls=12, fb=0, lats=(10, 30), callers=(1,)))]}
+        kv, kcov, kass = cli_core(pid, cplan, tier, None, models=False, nsim_quick=16)
+        violations.extend(kv[:4])
+        cov['worker_modes']['client-failover'] = {'cases': kcov['schedules_replayed'], 'crashes': sum(1 for v in kv if v.get('signature', '').startswith('crash'))}
     if not cov['samples']:
         cov['samples'] = ['none']
     cov['evaluations'] = sum(v['cases'] for v in cov['worker_modes'].values())
